@@ -395,3 +395,440 @@ func genConfigDir() (string, error) {
 	s += footer("ConfigDir")
 	return s, nil
 }
+
+// ---------------------------------------------------------------- Gen/ConfigPairs.lean
+
+func init() {
+	register("ConfigPairs", genConfigPairs)
+}
+
+type pairInfo struct {
+	cfg    string            // config struct both methods go through
+	durs   map[string]string // derived field -> config member (duration copies)
+	metas  map[string]string // derived field -> config member (metadata)
+	plain  map[string]string // derived field -> config member (plain copies)
+	boxed  string
+	ok     bool
+}
+
+// stripConv removes a one-argument conversion such as uint64(x) or time.Duration(x).
+func stripConv(e ast.Expr) ast.Expr {
+	if c, ok := e.(*ast.CallExpr); ok && len(c.Args) == 1 {
+		switch exprKey(c.Fun) {
+		case "uint64", "int64", "time.Duration":
+			return c.Args[0]
+		}
+	}
+	return e
+}
+
+// member resolves r.C.F / r.F (promoted through the embedded config) / local.F to the config member F.
+func cfgMember(key, recv, cfg, local string) (string, bool) {
+	for _, p := range []string{recv + "." + cfg + ".", local + ".", recv + "."} {
+		if p != "." && strings.HasPrefix(key, p) {
+			rest := key[len(p):]
+			if rest != "" && !strings.Contains(rest, ".") {
+				return rest, true
+			}
+		}
+	}
+	return "", false
+}
+
+func recvVar(fd *ast.FuncDecl) string {
+	if fd.Recv != nil && len(fd.Recv.List) == 1 && len(fd.Recv.List[0].Names) == 1 {
+		return fd.Recv.List[0].Names[0].Name
+	}
+	return ""
+}
+
+func classifyUnmarshal(fd *ast.FuncDecl, embedded map[string]bool, privateCfg map[string]string) pairInfo {
+	pi := pairInfo{durs: map[string]string{}, metas: map[string]string{}, plain: map[string]string{}}
+	r := recvVar(fd)
+	st := fd.Body.List
+	if len(st) == 1 { // return json.Unmarshal(b, &r.F)
+		if ret, ok := st[0].(*ast.ReturnStmt); ok && len(ret.Results) == 1 {
+			if c, ok := ret.Results[0].(*ast.CallExpr); ok && exprKey(c.Fun) == "json.Unmarshal" && len(c.Args) == 2 {
+				k := exprKey(c.Args[1])
+				if strings.HasPrefix(k, "&"+r+".") && !strings.Contains(k[len(r)+2:], ".") {
+					pi.boxed, pi.ok = k[len(r)+2:], true
+				}
+			}
+		}
+		return pi
+	}
+	local := ""
+	i := 0
+	// optional: cfg := T{}
+	if as, ok := st[0].(*ast.AssignStmt); ok && as.Tok == token.DEFINE && len(as.Lhs) == 1 && len(as.Rhs) == 1 {
+		if cl, ok := as.Rhs[0].(*ast.CompositeLit); ok && len(cl.Elts) == 0 {
+			local = exprKey(as.Lhs[0])
+			pi.cfg = exprKey(cl.Type)
+			i = 1
+		}
+	}
+	if i >= len(st) {
+		return pi
+	}
+	ifs, ok := st[i].(*ast.IfStmt)
+	if !ok || ifs.Init == nil || !ifInitCalls(ifs, "json.Unmarshal") {
+		return pi
+	}
+	var target string
+	ast.Inspect(ifs.Init, func(n ast.Node) bool {
+		if c, ok := n.(*ast.CallExpr); ok && exprKey(c.Fun) == "json.Unmarshal" && len(c.Args) == 2 {
+			target = exprKey(c.Args[1])
+		}
+		return true
+	})
+	if local != "" {
+		if target != "&"+local {
+			return pi
+		}
+	} else {
+		if !strings.HasPrefix(target, "&"+r+".") {
+			return pi
+		}
+		pi.cfg = target[len(r)+2:]
+		if !embedded[pi.cfg] {
+			return pi
+		}
+	}
+	for _, s := range st[i+1:] {
+		switch x := s.(type) {
+		case *ast.ReturnStmt:
+			if len(x.Results) == 1 && exprKey(x.Results[0]) == "nil" {
+				pi.ok = true
+			}
+			return pi
+		case *ast.AssignStmt:
+			if x.Tok != token.ASSIGN || len(x.Lhs) != 1 || len(x.Rhs) != 1 {
+				return pi
+			}
+			lhs := exprKey(x.Lhs[0])
+			if !strings.HasPrefix(lhs, r+".") || strings.Contains(lhs[len(r)+1:], ".") {
+				return pi
+			}
+			d := lhs[len(r)+1:]
+			rhs := stripConv(x.Rhs[0])
+			if c, ok := rhs.(*ast.CallExpr); ok && exprKey(c.Fun) == "configToMetadata" && len(c.Args) == 1 {
+				f, ok := cfgMember(exprKey(c.Args[0]), r, pi.cfg, local)
+				if !ok {
+					return pi
+				}
+				pi.metas[d] = f
+				continue
+			}
+			k := exprKey(rhs)
+			if local != "" && k == local { // r.raw = cfg
+				if privateCfg[d] != pi.cfg {
+					return pi
+				}
+				pi.plain[d] = "*"
+				continue
+			}
+			if strings.HasSuffix(k, ".Duration") {
+				f, ok := cfgMember(strings.TrimSuffix(k, ".Duration"), r, pi.cfg, local)
+				if !ok {
+					return pi
+				}
+				pi.durs[d] = f
+				continue
+			}
+			f, ok := cfgMember(k, r, pi.cfg, local)
+			if !ok {
+				return pi
+			}
+			pi.plain[d] = f
+		default:
+			return pi
+		}
+	}
+	return pi
+}
+
+func classifyMarshal(fd *ast.FuncDecl, embedded map[string]bool, privateCfg map[string]string) (pairInfo, []string) {
+	pi := pairInfo{durs: map[string]string{}, metas: map[string]string{}, plain: map[string]string{}}
+	var notes []string
+	r := recvVar(fd)
+	st := fd.Body.List
+	for idx, s := range st {
+		switch x := s.(type) {
+		case *ast.ReturnStmt:
+			if idx != len(st)-1 || len(x.Results) != 1 {
+				return pi, notes
+			}
+			c, ok := x.Results[0].(*ast.CallExpr)
+			if !ok || exprKey(c.Fun) != "json.Marshal" || len(c.Args) != 1 {
+				return pi, notes
+			}
+			k := exprKey(c.Args[0])
+			if !strings.HasPrefix(k, r+".") || strings.Contains(k[len(r)+1:], ".") {
+				return pi, notes
+			}
+			f := k[len(r)+1:]
+			switch {
+			case embedded[f]:
+				pi.cfg, pi.ok = f, true
+			case privateCfg[f] != "":
+				pi.cfg, pi.ok = privateCfg[f], true
+				pi.plain[f] = "*"
+			default:
+				if len(st) == 1 {
+					pi.boxed, pi.ok = f, true
+				}
+			}
+			return pi, notes
+		case *ast.AssignStmt:
+			if x.Tok != token.ASSIGN || len(x.Lhs) != 1 || len(x.Rhs) != 1 {
+				return pi, notes
+			}
+			lhs := exprKey(x.Lhs[0])
+			rhs := stripConv(x.Rhs[0])
+			if c, ok := rhs.(*ast.CallExpr); ok && exprKey(c.Fun) == "metadataToConfig" && len(c.Args) == 1 {
+				d := exprKey(c.Args[0])
+				if !strings.HasPrefix(d, r+".") {
+					return pi, notes
+				}
+				pi.metas[d[len(r)+1:]] = lhs // resolved below
+				continue
+			}
+			d := exprKey(rhs)
+			if !strings.HasPrefix(d, r+".") || strings.Contains(d[len(r)+1:], ".") {
+				return pi, notes
+			}
+			if strings.HasSuffix(lhs, ".Duration") {
+				pi.durs[d[len(r)+1:]] = strings.TrimSuffix(lhs, ".Duration")
+			} else {
+				pi.plain[d[len(r)+1:]] = lhs
+			}
+		case *ast.IfStmt:
+			// `if pm, ok := x.F.(proto.Message); ok { … }`: a branch for values that were not produced by UnmarshalJSON
+			if as, ok := x.Init.(*ast.AssignStmt); ok && len(as.Rhs) == 1 {
+				if ta, ok := as.Rhs[0].(*ast.TypeAssertExpr); ok && exprKey(ta.Type) == "proto.Message" {
+					notes = append(notes, "type-assertion branch on proto.Message ignored (never taken for a value loaded from JSON)")
+					continue
+				}
+			}
+			return pi, notes
+		default:
+			return pi, notes
+		}
+	}
+	return pi, notes
+}
+
+func genConfigPairs() (string, error) {
+	dir := filepath.Join(repo, "pkg/config/v2")
+	pkgs, err := parserParseDir(dir)
+	if err != nil {
+		return "", err
+	}
+	type stInfo struct {
+		fields   map[string]string // field name -> json key ("-" …)
+		embedded map[string]bool
+		private  map[string]string // unexported field -> struct type name
+		um, m    *ast.FuncDecl
+	}
+	structs := map[string]*stInfo{}
+	var names []string
+	for _, f := range pkgs {
+		for _, d := range f.Decls {
+			gd, ok := d.(*ast.GenDecl)
+			if !ok || gd.Tok != token.TYPE {
+				continue
+			}
+			for _, sp := range gd.Specs {
+				ts := sp.(*ast.TypeSpec)
+				stt, ok := ts.Type.(*ast.StructType)
+				if !ok {
+					continue
+				}
+				si := &stInfo{fields: map[string]string{}, embedded: map[string]bool{}, private: map[string]string{}}
+				for _, fl := range stt.Fields.List {
+					key := ""
+					if fl.Tag != nil {
+						raw, _ := strconv.Unquote(fl.Tag.Value)
+						if m := regexp.MustCompile(`json:"([^",]*)`).FindStringSubmatch(raw); m != nil {
+							key = m[1]
+						}
+					}
+					if len(fl.Names) == 0 {
+						si.embedded[exprKey(fl.Type)] = true
+						continue
+					}
+					for _, n := range fl.Names {
+						si.fields[n.Name] = key
+						if !ast.IsExported(n.Name) {
+							si.private[n.Name] = exprKey(fl.Type)
+						}
+					}
+				}
+				structs[ts.Name.Name] = si
+				names = append(names, ts.Name.Name)
+			}
+		}
+	}
+	for _, f := range pkgs {
+		for _, d := range f.Decls {
+			fd, ok := d.(*ast.FuncDecl)
+			if !ok || fd.Recv == nil || len(fd.Recv.List) != 1 || fd.Body == nil {
+				continue
+			}
+			t := fd.Recv.List[0].Type
+			if s, ok := t.(*ast.StarExpr); ok {
+				t = s.X
+			}
+			si := structs[exprKey(t)]
+			if si == nil {
+				continue
+			}
+			switch fd.Name.Name {
+			case "MarshalJSON":
+				si.m = fd
+			case "UnmarshalJSON":
+				si.um = fd
+			}
+		}
+	}
+	sortStrings(names)
+	var rows []string
+	for _, n := range names {
+		si := structs[n]
+		if si.m == nil && si.um == nil {
+			continue
+		}
+		kind := ".other"
+		note := ""
+		if si.m != nil && si.um != nil {
+			u := classifyUnmarshal(si.um, si.embedded, si.private)
+			m, notes := classifyMarshal(si.m, si.embedded, si.private)
+			if len(notes) > 0 {
+				note = "  -- " + strings.Join(notes, "; ")
+			}
+			if u.ok && m.ok {
+				switch {
+				case u.boxed != "" && u.boxed == m.boxed && si.fields[u.boxed] == "":
+					kind = fmt.Sprintf(".boxed %q", u.boxed)
+				case u.cfg != "" && u.cfg == m.cfg && u.boxed == "" && m.boxed == "":
+					good := true
+					// the same derived fields are copied in both directions, to and from the same members
+					same := func(a, b map[string]string, viaCfg bool) {
+						if len(a) != len(b) {
+							good = false
+						}
+						for d, f := range a {
+							g, ok := b[d]
+							if !ok {
+								good = false
+								continue
+							}
+							if viaCfg {
+								r := recvVar(si.m)
+								if mf, ok2 := cfgMember(g, r, m.cfg, ""); !ok2 || mf != f {
+									if !(f == "*" && g == "*") {
+										good = false
+									}
+								}
+							}
+							if key, ok := si.fields[d]; !ok || (key != "-" && ast.IsExported(d)) {
+								good = false
+							}
+						}
+					}
+					same(u.durs, m.durs, true)
+					same(u.metas, m.metas, true)
+					// plain copies: name <-> cfg member, raw <-> whole config
+					for d, f := range u.plain {
+						if f == "*" {
+							continue
+						}
+						if g, ok := m.plain[d]; ok {
+							r := recvVar(si.m)
+							if mf, ok2 := cfgMember(strings.Replace(g, r+"."+privateField(si.private, m.cfg)+".", r+"."+m.cfg+".", 1), r, m.cfg, ""); !ok2 || mf != f {
+								good = false
+							}
+						}
+						// a plain member that is only read (never written back) does not change what is encoded
+					}
+					for d := range m.plain {
+						if _, ok := u.plain[d]; !ok && m.plain[d] != "*" {
+							good = false
+						}
+					}
+					if good && len(u.metas) == 1 {
+						cfgSt := structs[u.cfg]
+						for _, f := range u.metas {
+							if cfgSt != nil && cfgSt.fields[f] != "" {
+								kind = fmt.Sprintf(".metadata %q %q", u.cfg, cfgSt.fields[f])
+							}
+						}
+					} else if good && len(u.metas) == 0 {
+						kind = fmt.Sprintf(".mirror %q", u.cfg)
+					}
+				}
+			}
+		}
+		rows = append(rows, fmt.Sprintf("  (%q, %s)", n, kind)+note)
+	}
+	s := "-- GENERATED by /verif/extract from the MarshalJSON / UnmarshalJSON bodies of pkg/config/v2/*.go — do not edit; regenerated on every check\n"
+	s += "import MosnVerif.Model.PairTypes\nnamespace MosnVerif.Gen.ConfigPairs\nopen MosnVerif.Model.PairTypes\n\n"
+	s += "/-- every struct of pkg/config/v2 with a custom MarshalJSON or UnmarshalJSON, classified by the bodies of the two methods -/\n"
+	s += "def customKinds : List (String × CustomKind) := [\n" + strings.Join(rows, ",\n") + "\n]\n\n"
+	s += footer("ConfigPairs")
+	// Lean does not allow a comment between list elements and the separating comma on the same line: move notes up
+	return fixListComments(s), nil
+}
+
+func privateField(private map[string]string, cfg string) string {
+	for f, t := range private {
+		if t == cfg {
+			return f
+		}
+	}
+	return ""
+}
+
+func fixListComments(s string) string {
+	lines := strings.Split(s, "\n")
+	for i, l := range lines {
+		if j := strings.Index(l, "  -- "); j > 0 && strings.HasPrefix(strings.TrimSpace(l), "(") {
+			body, note := l[:j], l[j:]
+			comma := ""
+			if i+1 < len(lines) && strings.HasPrefix(lines[i+1], ",") {
+				comma = ""
+			}
+			_ = comma
+			lines[i] = body + " " + strings.TrimSpace(note)
+		}
+	}
+	return strings.Join(lines, "\n")
+}
+
+func sortStrings(a []string) {
+	for i := 1; i < len(a); i++ {
+		for j := i; j > 0 && a[j] < a[j-1]; j-- {
+			a[j], a[j-1] = a[j-1], a[j]
+		}
+	}
+}
+
+func parserParseDir(dir string) ([]*ast.File, error) {
+	ents, err := os.ReadDir(dir)
+	if err != nil {
+		return nil, err
+	}
+	var out []*ast.File
+	for _, e := range ents {
+		n := e.Name()
+		if !strings.HasSuffix(n, ".go") || strings.HasSuffix(n, "_test.go") {
+			continue
+		}
+		f, err := parse(filepath.Join("pkg/config/v2", n))
+		if err != nil {
+			return nil, err
+		}
+		out = append(out, f)
+	}
+	return out, nil
+}
